@@ -1044,3 +1044,76 @@ Proof.
 Qed.
 
 End Generic.
+
+(* ---------------------------------------------------------------- C02 from the writer schemas alone
+   Well-formedness of what `wr` emits needs neither the reader schemas nor the version to be a known one:
+   only that every writer item and every table row carries a legal tag (env_wr_ok). *)
+Section WriterOnly.
+Variable E : env.
+Variable v : Z.
+Hypothesis HW : env_wr_ok E = true.
+
+Lemma cls_wr_ok_of c k : find_cls E c = Some k -> forall it, In it (filter (active v) (c_wr k)) -> item_ok E it = true.
+Proof.
+  unfold find_cls. intros H it Hin. apply find_some in H as [Hk _].
+  pose proof HW as HW'. unfold env_wr_ok in HW'. apply andb_prop in HW' as [H1 _].
+  rewrite forallb_forall in H1. specialize (H1 _ Hk). rewrite forallb_forall in H1.
+  apply filter_In in Hin as [Hin _]. apply H1. exact Hin.
+Qed.
+
+Lemma row_facts_w t tg k' : find_row E v t tg = Some k' -> tag_ok tg = true /\ is_tagged k' = false.
+Proof.
+  intros Hf. destruct (find_row_in _ _ _ _ _ Hf) as (r & Hin & <- & <-).
+  pose proof HW as HW'. unfold env_wr_ok in HW'. apply andb_prop in HW' as [_ HE2].
+  unfold find_table in Hin. destruct (find _ (e_tables E)) as [[n rows]|] eqn:Ef; [|destruct Hin].
+  apply find_some in Ef as [Hint _]. rewrite forallb_forall in HE2. specialize (HE2 _ Hint). cbn in HE2.
+  rewrite forallb_forall in HE2. specialize (HE2 _ Hin). unfold row_ok in HE2.
+  apply andb_prop in HE2 as [HE2 _]. apply andb_prop in HE2 as [HE2 Hnt]. apply andb_prop in HE2 as [Ht Hm].
+  apply negb_true_iff in Hnt. auto.
+Qed.
+
+Theorem wr_wf_w' : forall fuel tag k x bs, tag_ok' tag k = true -> wfv E v fuel k x = true ->
+  wr E v fuel tag k x = Some bs -> wf_item bs.
+Proof.
+  induction fuel as [|f IH]; intros tag k x bs Ht Hwf Hw; [discriminate|].
+  cbn [wr] in Hw. cbn [wfv] in Hwf.
+  destruct k as [t|e|c|t]; destruct x as [p|fields|tg y]; try discriminate;
+    try (unfold tag_ok' in Ht; cbn [is_tagged orb] in Ht).
+  - destruct (ptype_eqb (ptype_of p) t && negb (ptype_eqb t PEnum)) eqn:Ep; [|discriminate].
+    apply andb_prop in Ep as [Ept Hne]. apply ptype_eqb_eq in Ept. subst t. apply negb_true_iff in Hne.
+    apply (enc_prim_wf (fun _ => false) tag p bs Ht); [|exact Hw].
+    apply (enc_some_iff_wf (fun _ => false) tag p);
+      [destruct p; try exact I; exact Hwf | destruct p; try exact I; cbn in Hne; discriminate | eauto].
+  - destruct p as [| | |n| | | | |]; try discriminate.
+    apply (enc_prim_wf (enum_mem E e) tag (VEnum n) bs Ht); [|exact Hw].
+    apply (enc_some_iff_wf (enum_mem E e) tag (VEnum n)); [exact I|exact Hwf|eauto].
+  - destruct (find_cls E c) as [k|] eqn:Ec; [|discriminate].
+    pose proof (cls_wr_ok_of c k Ec) as Hio.
+    destruct (v <? c_minver k) eqn:Emv; [discriminate|]. cbn [negb andb] in Hwf.
+    destruct (forallb (post_ok v fields) (c_post_wr k)) eqn:Epo; [|discriminate]. cbn [negb andb] in Hwf, Hw.
+    destruct (wr_items _ _ _ _) as [body|] eqn:Eb; [|discriminate].
+    destruct (items_children E v (wr E v f) (wfv E v f) _ _ _ _ IH Hio Hwf Eb) as (children & -> & Hch).
+    apply with_hdr_some in Hw as (h & Hh & ->). apply hdr_spec in Hh as [-> Hr].
+    unfold tag_ok in Ht.
+    pose proof (wf_structure tag children ltac:(change (256 ^ 3) with 16777216; lia) Hch) as Hs.
+    unfold zlen in *. rewrite <- !app_assoc. apply Hs. unfold TWO32 in Hr. lia.
+  - destruct (find_row E v t tg) as [k'|] eqn:Ef; [|discriminate].
+    destruct (row_facts_w t tg k' Ef) as (Htg & Hnt). rewrite Hnt in *. cbn [negb andb] in Hwf.
+    apply (IH tg k' y bs); [unfold tag_ok'; rewrite Htg, orb_true_r; reflexivity|exact Hwf|exact Hw].
+Qed.
+
+Theorem wr_wf_w : forall fuel tag k x bs, tag_ok tag = true -> wfv E v fuel k x = true ->
+  wr E v fuel tag k x = Some bs -> wf_item bs.
+Proof.
+  intros fuel tag k x bs Ht. apply wr_wf_w'. unfold tag_ok'. rewrite Ht, orb_true_r. reflexivity.
+Qed.
+End WriterOnly.
+
+Lemma env_ok_wr E : env_ok E = true -> env_wr_ok E = true.
+Proof.
+  unfold env_ok, env_wr_ok. intros H. apply andb_prop in H as [H1 H2]. rewrite H2, andb_true_r.
+  rewrite forallb_forall in *. intros k Hk. specialize (H1 _ Hk). unfold cls_ok in H1.
+  apply andb_prop in H1 as [H1 _]. apply andb_prop in H1 as [H1 _]. apply andb_prop in H1 as [H1 _].
+  apply andb_prop in H1 as [H1 _]. apply andb_prop in H1 as [Hrw Hio].
+  apply items_eqb_eq in Hrw. rewrite <- Hrw. exact Hio.
+Qed.
